@@ -179,6 +179,24 @@ def innermost_union(pos, x):
     return pos
 
 
+def has_order_twin(pos):
+    """Is there, in the same program, another union object that is == to this one but lists its members in another order?
+    (typing.Union equality ignores order; typelib's memoised helpers then serve the first spelling - finding D15.)"""
+    import typing
+
+    prog = pos.prog
+    if prog is None or isinstance(pos.t, str):
+        return False
+    for sp in prog.specs:
+        if sp.kind == "union" and sp is not pos and not isinstance(sp.t, str):
+            try:
+                if sp.t == pos.t and typing.get_args(sp.t) != typing.get_args(pos.t):
+                    return True
+            except Exception:  # noqa: BLE001
+                pass
+    return False
+
+
 def has_union_below(spec):
     return any(s.kind == "union" for s in spec.walk())
 
@@ -196,6 +214,7 @@ def judge(sh, spec, v, u, tsrc):
             sh.count("union_rule_" + mode)
             if not ok:
                 ok_all = False
+                uf["union_twin"] = has_order_twin(pos)
                 sh.violation("union-" + mode, type_src=tsrc, pos=path, pos_src=pos.src, pos_desc=describe(pos),
                              value=short(x), observed=short(y), detail=detail, **uf)
         elif pos.kind in ("coll", "mapping") and has_union_below(pos) and type(x) is type(y):
